@@ -273,6 +273,11 @@ DECOYS = [
     "extern \"C\" fn private_extern(d: &impl A) {}",
     "const unsafe fn private_cu<D: A>(d: D) {}",
     "struct St { a: i32 }",
+    "fn sum_items<I: Iterator<Item = u8>>(i: I) -> u8 { 0 }",
+    "struct Gd<T = i32> { t: T }",
+    "impl<T: Iterator<Item = u8>> Gd<T> { pub fn n(&self) {} }",
+    "pub type Al<T = i32> where T: Copy = Vec<T>;",
+    "const CND: usize = if true { 1 } else { 2 };",
     "pub struct Pu;",
     "const K: i32 = { 1 + 2 };",
     "pub const fn_like: i32 = 3;",
@@ -325,7 +330,7 @@ def gen_mod(rng, *, allow_err=False, nfns=None):
     for d in decoys:
         merged.insert(rng.randrange(len(merged) + 1), d)
     mv = rng.choice(["", "pub ", "pub(crate) "])
-    mname = rng.choice(["m", "api", "inner_mod", "foo"])
+    mname = rng.choice(["m", "api", "inner_mod", "foo", "r#async", "r#type", "r#mod"])
     mattrs = ""
     if rng.random() < 0.2:
         mattrs = rng.choice(["/// mod doc\n", "#[allow(unused)]\n", "#[async_trait]\n", "#[cfg(not(any()))]\n"])
@@ -723,6 +728,10 @@ REGRESSION = [
     ("ref", "impl FooImpl for MyType { fn foo<'a, D>(d: &'a D, x: &'a i32) -> &'a i32 { x } fn bar<D>(d: &D) {} fn baz<D>(d: D) {} }"),
     ("FooImpl, delegate_by = ref", "trait T { fn f<'a>(&'a self, x: &'a i32) -> &'a i32; fn g(&self); fn h(self); }"),
     ("FooImpl, delegate_by = Deleg", "trait T { fn f<'a>(&'a self, x: &'a i32) -> &'a i32; fn g(&self); fn h(self); }"),
+    ("", "impl FooImpl<i32> for MyType { fn foo<D>(d: &D) {} }"),
+    ("ref", "impl a::FooImpl::<T> for MyType { fn foo<D>(d: &D) {} }"),
+    ("", "impl a::<X>::FooImpl for MyType { fn foo<D>(d: &D) {} }"),
+    ("", "impl Fn(i32) -> i32 for MyType { fn foo<D>(d: &D) {} }"),
     ("pub(super) Foo", "mod m { pub fn foo(d: &impl A) {} }"),
     ("pub(self) Foo", "pub mod m { pub fn foo(d: &impl A) {} }"),
     ("pub(in self::super) Foo", "mod m { pub fn foo(d: &impl A) {} }"),
